@@ -655,8 +655,15 @@ def run_cost(p):
     bv = np.full(av.shape, b) if np.isscalar(b) else sel(b)
     line = f'{kind} {av.size} ' + rw(av) + ' ' + rw(bv)
     impl = np.concatenate([[c0], sel(g) if np.shape(g) == shp else np.ravel(g)])
+    extra = [(line, impl, (av.size + 1,), 'r', 'closed-form model of cost and gradient')]
+    if mask is not None and np.shape(g) == shp:
+        # the masked model of the theorems (Model.compress / scatterMask around the closed forms): kept positions in C order
+        idx = np.flatnonzero(mask)
+        bfull = np.full(shp, b) if np.isscalar(b) else b
+        mline = f'mcost {kind} {idx.size} {a.size} ' + ' '.join(str(int(k)) for k in idx) + ' ' + rw(a) + ' ' + rw(bfull)
+        extra.append((mline, np.concatenate([[c0], np.ravel(g)]), (a.size + 1,), 'r', 'masked model: compress, closed form, scatter'))
     return Result(ok, f'finite difference {fd:.10g}, <grad,delta> {an:.10g}',
-                  extra=[(line, impl, (av.size + 1,), 'r', 'closed-form model of cost and gradient')],
+                  extra=extra,
                   tag=f'{kind}/{"masked" if p["masked"] else "unmasked"}{"/scalar-yhat" if p.get("scalar_yhat") else ""}')
 
 
@@ -732,6 +739,48 @@ def run_dm(p):
                       f'{"pad" if s.shape[0] > dm.Nintermediate[0] else "crop" if s.shape[0] < dm.Nintermediate[0] else "same"}/'
                       f'{"up" if up != 1 else "noup"}/{"shift" if any(p["shift"]) else "noshift"}/{"wfe" if p["wfe"] else "sfe"}'
                       f'{"/rot" if any(rot) else ""}{"/shape-not-Nout" if tuple(s.shape) != tuple(dm.Nout) else ""}')
+
+
+def run_resample(p):
+    """fttools.fourier_resample / x.dm.fourier_resample_backprop called DIRECTLY (every zoom spelling the two accept: Python float
+    / int, NumPy scalar, tuple, list, per-axis different, < 1 and > 1, 1 = identity; non-square arrays of every parity):
+    <y, resample(x)> = <resample_backprop(y), x> for real x, y, and the backprop against the Lean model of the chain
+    (idft2_backprop with the forward's OWN cached bases, ifftshift, ifft2, fftshift, scale) evaluated by the driver"""
+    P, ft, _, _, _, _, dmm = _impl()
+    r = _rng(p['seed'])
+    shp = tuple(p['shape'])
+    zy, zx = p['zoom']
+    form = p.get('zform', 'tuple')
+    zoom = {'tuple': (zy, zx), 'list': [zy, zx], 'float': float(zy), 'int': int(zy), 'npfloat': np.float64(zy)}[form]
+    if form in ('float', 'int', 'npfloat'):
+        zx = zy = float(zoom)
+    x = r.normal(size=shp)
+    L = layfn(p)
+    with Spy(ft) as spy:
+        Ax = ft.fourier_resample(L(x), zoom)
+    out = tuple(Ax.shape)
+    y = r.normal(size=out)
+    By, impure = pure2(dmm.fourier_resample_backprop, L(y), zoom, shp)
+    gap, lhs, rhs = adj_gap(x, y, Ax, By)
+    ident = (zy == 1 and zx == 1 and form in ('float', 'int', 'npfloat'))
+    ok = gap <= TOL_ADJ and tuple(np.shape(By)) == shp and not impure and np.isrealobj(By)
+    if ident:
+        ok = ok and np.array_equal(Ax, x) and np.array_equal(By, y)
+    line = None
+    if not ident:
+        try:
+            Eo, Ei = spy.bases(0)
+            m, n = shp
+            G1, G2 = np.fft.ifft(np.eye(m), axis=0), np.fft.ifft(np.eye(n), axis=0)    # ifft2(W) = G1 @ W @ G2: NumPy's own inverse DFT matrices
+            cb = float(zy) * float(zx) * float(np.sqrt(m * n))
+            line = f'resbp {m} {n} {out[0]} {out[1]} ' + C.f2w(cb) + ' ' + cw(G1) + ' ' + cw(G2) + ' ' + cw(Eo) + ' ' + cw(Ei) + ' ' + cw(y)
+        except (KeyError, IndexError):
+            line = None
+    par = lambda k: 'odd' if k % 2 else 'even'
+    return Result(bool(ok), f'<y,Ax>={lhs:.12g} <By,x>={rhs:.12g} rel gap {gap:.3e}' + (f'; {impure}' if impure else ''),
+                  line, np.asarray(By, dtype=float) if line else None, shp, 'r', nontrivial=max(shp) > 1,
+                  tag=f'{form}/{"identity" if ident else ("up" if zy > 1 else "down") + ("-mixed" if (zy > 1) != (zx > 1) else "")}'
+                      f'/{par(shp[0])}x{par(shp[1])}->{par(out[0])}x{par(out[1])}/{"sq" if shp[0] == shp[1] else "nonsq"}')
 
 
 def _fd_vjp(fwd, x, d, g, h):
@@ -920,7 +969,7 @@ def run_history(p):
 
 RUN = {'mdft': run_mdft, 'fixed': run_fixed, 'fpm': run_fpm, 'babinet': run_babinet, 'intensity': run_intensity,
        'phase': run_phase, 'modes': run_modes, 'softmax': run_softmax, 'activation': run_activation, 'sg': run_sg,
-       'cost': run_cost, 'dm': run_dm, 'history': run_history}
+       'cost': run_cost, 'dm': run_dm, 'history': run_history, 'resample': run_resample}
 
 
 # ------------------------------------------------------------------------------------------------
@@ -1042,6 +1091,18 @@ def _gen_cases(r, item, k):
         elif item == 'cost':
             out.append({'kind': ['mse', 'bgie', 'nll'][i % 3], 'shape': _shape(r, 2, 6), 'masked': bool((i // 3) % 2),
                         'scalar_yhat': (i % 3 == 2 and (i // 6) % 2 == 1), 'seed': seed})
+        elif item == 'resample':
+            shp = _shape(r, 2, 9)
+            form = ['tuple', 'float', 'list', 'tuple', 'int', 'npfloat', 'tuple'][i % 7]
+            zs = [0.5, 0.75, 1.25, 1.5, 2.0, float(r.uniform(0.4, 2.5)), float(r.uniform(0.4, 2.5))]
+            zy, zx = zs[int(r.integers(0, 7))], zs[int(r.integers(0, 7))]
+            if form == 'int':
+                zy = zx = [1, 2, 3][(i // 7) % 3]
+            if form in ('float', 'npfloat') and (i // 7) % 5 == 4:
+                zy = zx = 1.0
+            if min(int(shp[0] * zy), int(shp[1] * (zx if form in ('tuple', 'list') else zy))) < 1:
+                zy = zx = 1.5
+            out.append({'shape': shp, 'zoom': [zy, zx], 'zform': form, 'seed': seed})
         elif item == 'dm':
             n0 = int(r.integers(14, 25))
             n1 = n0 if i % 3 == 0 else int(r.integers(14, 25))
@@ -1163,6 +1224,15 @@ def small_cases(item):
                     yield {'kind': kind, 'shape': s, 'masked': mk, 'scalar_yhat': False, 'seed': 7}
                     if kind != 'nll':
                         yield {'kind': kind, 'shape': s, 'masked': mk, 'scalar_yhat': False, 'seed': 7, 'dtype': 'int', 'layout': 'F'}
+    elif item == 'resample':
+        for tot in range(2, 12):
+            for m, n in itertools.product(range(1, 7), repeat=2):
+                if m + n == tot:
+                    for z in ([2.0, 2.0], [1.5, 1.5], [0.5, 0.5], [1.5, 0.75], [3.0, 0.5]):
+                        if int(m * z[0]) >= 1 and int(n * z[1]) >= 1:
+                            yield {'shape': [m, n], 'zoom': z, 'zform': 'tuple', 'seed': 7}
+                            if z[0] == z[1]:
+                                yield {'shape': [m, n], 'zoom': z, 'zform': 'float', 'seed': 7}
     elif item == 'history':
         for steps in (1, 2, 3):
             for node in ('gumbel', 'encoder-gumbel', 'encoder-softmax', 'softmax'):
@@ -1184,9 +1254,9 @@ def small_cases(item):
                 yield {'ifn_shape': [n, n1], 'Nout': Nout, 'Nact': 3, 'sep': [2, 3], 'shift': sh, 'upsample': up, 'wfe': wfe, 'seed': 7}
 
 
-ITEMS = ['mdft', 'fixed', 'fpm', 'babinet', 'intensity', 'phase', 'modes', 'softmax', 'activation', 'sg', 'cost', 'dm', 'history']
+ITEMS = ['mdft', 'fixed', 'fpm', 'babinet', 'intensity', 'phase', 'modes', 'softmax', 'activation', 'sg', 'cost', 'dm', 'history', 'resample']
 QUICK = {'mdft': 30, 'fixed': 40, 'fpm': 42, 'babinet': 30, 'intensity': 12, 'phase': 12, 'modes': 12, 'softmax': 48,
-         'activation': 24, 'sg': 40, 'cost': 36, 'dm': 42, 'history': 44}
+         'activation': 24, 'sg': 40, 'cost': 36, 'dm': 42, 'history': 44, 'resample': 42}
 
 
 def _safe_run(item, p):
@@ -1251,7 +1321,7 @@ _HINT = {'ffs': 'fixed', 'ufs': 'fixed', 'fpm': 'fpm', 'babinet': 'babinet', 'sg
          'mse': 'cost', 'bgie': 'cost', 'nll': 'cost', 'tanh': 'activation', 'arctan': 'activation', 'softplus': 'activation',
          'sigmoid': 'activation', 'softmax': 'softmax', 'gumbel': 'softmax', 'encoder': 'softmax', 'intensity': 'intensity',
          'phase': 'phase', 'wavefront': 'intensity', 'modal': 'modes', 'dm_steps': 'dm', 'mdft_terms': 'mdft', 'triple': 'mdft', 'circ': 'dm',
-         'pad_crop': 'dm', 'qForSampling': 'fixed', 'live': 'history', 'attribute': 'history'}
+         'pad_crop': 'dm', 'resample': 'resample', 'roll': 'resample', 'mask': 'cost', 'qForSampling': 'fixed', 'live': 'history', 'attribute': 'history'}
 
 
 def search(ctx, hints):
@@ -1310,24 +1380,30 @@ MANIFEST_ENTRY = {
              'L*(x - T x) end to end (instantiated with the mask-and-back pair, coefficient read off the source); pad/crop with the offsets '
              'translated from pad2d / crop_center; strided scatter/gather; Fourier filtering against filtering with conj(H) (only contract: ifft = c fft^H, '
              'c real) and its real-part corollary; the DM.render chain without rotation / resampling in the pure padding and pure cropping '
-             'geometries; the modal sum with real modes (tensordot axes translated); the SpatialGradient2D statements as translated (every axis '
+             'geometries; fourier_resample against fourier_resample_backprop (fourier_resample_adjoint: every input / output size and zoom, any matrix-DFT bases, '
+             'ifft = fft^H / size, with the roll amounts and BOTH scale factors translated from the source; circular shifts are adjoint to the opposite shift, '
+             'every parity); the modal sum with real modes (tensordot axes translated); the SpatialGradient2D statements as translated (every axis '
              'length) with row/column liftings.  Non-linear nodes: intensity (exact quadratic); mean-square error RELATIVE to the translated '
              'cost/gradient pair (any normalisation convention); phase node composed (HasDerivAt of phi -> Re<gbar, A exp(i k phi)> equals the '
              'translated backprop, wavenumber translated from both sides); softmax VJP, its batch lifting, shift invariance, Gumbel-softmax '
              '(1/tau), discrete encoder over softmax AND over Gumbel-softmax; tanh / arctan / softplus / sigmoid; negative log-likelihood; '
              'bias-and-gain-invariant error in full (envelope argument made rigorous) -- the last seven through the recognised closed forms '
              '(gen_* pins: a consistent change of convention in both forward and backward of those is reported as a tie failure).  '
+             'Masked cost functions for ALL masks: scatter-into-zeros is the adjoint of x[mask] (mask_compress_scatter_adjoint), hence scatter(grad(x[mask])) '
+             'is the gradient of cost(x[mask]) for any differentiable cost (masked_cost_grad), instantiated for mse / bgie / nll -- tied to the source by the '
+             'recognised compress / scatter SHAPE of the masked branches (flag), not by a translated term.  '
              'TRANSLATED every run: Q / shift / shape wiring of focus/unfocus_fixed_sampling(_backprop) and to_fpm_and_back(_backprop) by symbolic '
              'execution (backprop legs equal the forward legs up to ring normalisation, for all arguments; tuple-valued samples, method=mdft, '
              'return_more=False, ndarray mask -- the other argument forms are exercised numerically only), SpatialGradient2D slice statements, '
              'cost / activation / softmax / encoder / Wavefront-node closed forms, pad/crop offsets, tensordot axes, the ordered operation lists of '
-             'DM.render and DM.render_backprop (each step the adjoint of the mirrored one), live-attribute obligation (no backprop reads state its '
+             'DM.render and DM.render_backprop (each step the adjoint of the mirrored one), the operation chains / roll amounts / scale factors / matrix-DFT '
+             'geometry of fourier_resample and fourier_resample_backprop (gen_resample_chain, gen_resample_shifts, gen_resample_scale), live-attribute obligation (no backprop reads state its '
              'forward does not).  Recognised-shape FLAGS only (Bool, no Lean content): call wiring (*Wired), masked-cost branches, broadcasting '
              'over the levels axis, forward shapes of softmax / Gumbel / encoder / intensity.  COMPARED on every case: the property\'s own '
              'predicate on the real code (dot product at 1e-10; Richardson differences at 1e-6 plus the float64 resolution floor) and the real '
              'backprop against the Lean model given the forward\'s OWN ingredients (cached bases, DM transfer function / lattice / offsets).  '
-             'Exercised numerically only: masked costs, int / list / scalar argument forms, return_more=True (all three arrays and the labels of the '
-             'returned Wavefronts), Wavefront / RichData container inputs, method=czt, upsample != 1 (adjoint resampler), re-assigned node '
+             'Exercised numerically only: int / list / scalar argument forms, return_more=True (all three arrays and the labels of the '
+             'returned Wavefronts), Wavefront / RichData container inputs, method=czt, the zoom spellings of the resampler (float / int / NumPy scalar / tuple / list, identity at 1; called directly and through DM upsample != 1), re-assigned node '
              'parameters and interleaved forwards, complex upstream gradients.  DM rotation: the companion is the inverse warp, NOT an exact adjoint '
              '(interpolation + tilt Jacobian); tested at 5e-2 on smooth upstream gradients, no theorem.  Geometries on which DM.__init__ / render '
              'themselves fail (non-square Nact, pad one axis and crop the other) are recorded, not judged.  The model-level theorems '
